@@ -474,3 +474,21 @@ def same_index(a, b):
         except TypeError:
             return False
     return int(a) == int(b)
+
+
+def simplify(plan):
+    """Minimisation: drop unreferenced entries, then try removing single entries from batches."""
+    import copy
+
+    from sim.shrink import compact_entries
+
+    c = compact_entries(plan, ())
+    if c is not None:
+        yield c
+    for k, op in enumerate(plan.get("ops", [])):
+        idx = op.get("idx")
+        if idx and len(idx) > 1:
+            for j in range(len(idx)):
+                c = copy.deepcopy(plan)
+                del c["ops"][k]["idx"][j]
+                yield c
